@@ -172,6 +172,8 @@ type recorder struct {
 	settled  int
 	casFail  int
 	internal []string // violations detected inside the collaborators
+	// CAS write failures that did not fail the batch being prepared
+	casIgnored []string
 }
 
 func opID(q *operation.QueuedOperation) int64 {
@@ -218,9 +220,16 @@ type recHandler struct {
 }
 
 func (h *recHandler) PrepareTxnFiles(ops []*operation.QueuedOperation) (*protocol.AnchoringInfo, error) {
+	h.rec.mu.Lock()
+	casFailedBefore := h.rec.casFail
+	h.rec.mu.Unlock()
 	info, err := h.inner.PrepareTxnFiles(ops)
 	h.rec.mu.Lock()
 	defer h.rec.mu.Unlock()
+	// CAS writes happen only inside this call (one writer goroutine): a failed write must fail the batch
+	if err == nil && h.rec.casFail > casFailedBefore {
+		h.rec.casIgnored = append(h.rec.casIgnored, fmt.Sprintf("%d CAS write(s) failed while batch %v was prepared and PrepareTxnFiles reported success", h.rec.casFail-casFailedBefore, idsOf(ops)))
+	}
 	p := &prepRec{Seq: len(h.rec.preps), Genesis: h.genesis, IDs: idsOf(ops), OK: err == nil}
 	if err == nil {
 		p.Expired = idsOf(info.ExpiredOperations)
@@ -538,6 +547,9 @@ func runChild(p params) runResult {
 	}
 	for _, m := range rec.internal {
 		viol("anchor_follows_prepare", m, nil)
+	}
+	for _, m := range rec.casIgnored {
+		viol("cas_write_failure_fails_the_batch", m, nil)
 	}
 	anchoredIn := map[int64][]int{}
 	discardedIn := map[int64][]int{}
